@@ -11,6 +11,9 @@
 // compared with what the real reader made of them; then they take the normal round trip and the
 // differential navigation (both describe consistent geometries).
 //
+// Envelope letters (d2, patched copies of text 1): "_units" native / foreign (must throw),
+// "_format": "orange", and a copy without any cell_names / surface_names key.
+//
 // Not used: the integer z-order of the global exterior.  The reader maps 65533 to 'exterior'
 // (uint16_max - 3 with uint16_max = 65536) whereas a 16-bit -1 would be 65535; no documentation or
 // bundled file says which one SCALE wrote, so neither value is part of the alphabet.
@@ -144,6 +147,65 @@ inline void add_legacy_programs(std::vector<Program>& out)
         p.source_text = it.text;
         p.file_entry = it.navigate;
         p.extra_tags = it.tags;
+        std::string const text = it.text;
+        p.make = [text] {
+            OrangeInput in;
+            nlohmann::json::parse(text).get_to(in);
+            return in;
+        };
+        out.push_back(std::move(p));
+    }
+
+    // (d2) envelope letters made by patching the parsed text of text_unit_translations():
+    //   "_units": <native>      must read exactly like the unpatched text (normal checks)
+    //   "_units": <non-native>  check_units (JsonUtils.json.cc) must refuse it: a text written by a
+    //                           build with another unit system has lengths off by 10x / 100x
+    //   "_format": "orange"     third accepted spelling
+    //   no cell_names / surface_names keys at all: every volume gets the default Label, the
+    //                           surface label list stays empty (structure only, no navigation)
+    auto patched = [](auto&& fn) {
+        nlohmann::json j = nlohmann::json::parse(legacy::text_unit_translations());
+        fn(j);
+        return j.dump();
+    };
+    std::string const native = celeritas::to_cstring(celeritas::UnitSystem::native);
+    std::string foreign;
+    for (char const* u : {"cgs", "si", "clhep"})
+        if (native != u && foreign.empty())
+            foreign = u;
+    struct PItem
+    {
+        std::string id, text;
+        bool navigate, expect_throw;
+        std::vector<std::string> tags;
+    };
+    std::vector<PItem> const pitems = {
+        {"legacy:units-native", patched([&](nlohmann::json& j) { j["_units"] = native; }), true, false,
+         {"r:units-key(native)"}},
+        {"legacy:units-foreign-must-throw", patched([&](nlohmann::json& j) { j["_units"] = foreign; }), false, true,
+         {"r:units-key(foreign)"}},
+        {"legacy:format-lowercase-orange", patched([&](nlohmann::json& j) { j["_format"] = "orange"; }), false, false,
+         {"r:format(orange)"}},
+        {"legacy:no-label-lists",
+         patched([&](nlohmann::json& j) {
+             for (auto& u : j["universes"])
+             {
+                 u.erase("cell_names");
+                 u.erase("surface_names");
+             }
+         }),
+         false, false,
+         {"r:label-lists-absent"}},
+    };
+    for (auto const& it : pitems)
+    {
+        Program p;
+        p.id = it.id;
+        p.navigate = it.navigate;
+        p.source_text = it.text;
+        p.file_entry = false;
+        p.extra_tags = it.tags;
+        p.expect_throw = it.expect_throw;
         std::string const text = it.text;
         p.make = [text] {
             OrangeInput in;
